@@ -27,7 +27,14 @@ def tsan_reports(text):
     return out
 
 
-def run_one(mon, req, strings, threads, calls, yld, env, seed, ref=None):
+def _decode(b):
+    import struct
+    f = lambda h: struct.unpack('<d', struct.pack('<Q', int(h, 16)))[0]
+    return dict(thread=b['thread'], request=b['request'], fn=b['fn'], reference=[b['ref'][0], b['ref'][1], f(b['ref'][2]), f(b['ref'][3])],
+                in_thread=[b['got'][0], b['got'][1], f(b['got'][2]), f(b['got'][3])])
+
+
+def run_one(mon, req, strings, threads, calls, yld, env, seed, ref=None, first=-1):
     d = tempfile.mkdtemp(prefix='xv-thr-')
     try:
         rq, st, rep = [os.path.join(d, x) for x in ('req', 'str', 'rep')]
@@ -36,7 +43,7 @@ def run_one(mon, req, strings, threads, calls, yld, env, seed, ref=None):
             rr, rm = os.path.join(d, 'ref'), os.path.join(d, 'refmsg')
             ref.raw.tofile(rr)
             open(rm, 'w').write(''.join(m + '\n' for m in ref.msgs))
-            extra = ['--ref', rr, rm]
+            extra = ['--ref', rr, rm, '--first', str(first)]
         req.tofile(rq)
         with open(st, 'wb') as fh:
             for s in strings:
@@ -82,7 +89,7 @@ def main(tier):
     libs, mons, queries, refs = {}, {}, {}, {}
     for cfg in ('shipped', 'kissel'):
         libs[cfg] = execlib.Lib(cfg)
-        Q, S = c16.build_queries(libs[cfg], rng, 6 if tier == 'quick' else 20)
+        Q, S = c16.build_queries(libs[cfg], rng, 30 if tier == 'quick' else 120)
         Q = Q[Q['fn'] < 2000]
         # requests naming a crystal that does not exist cannot be expressed to the reference executor: drop them
         bad = np.array([(r['fn'] >= 1001 and r['fn'] <= 1006 and r['s'] >= 0 and S[int(r['s'])] == 'nope') for r in Q])
@@ -103,6 +110,28 @@ def main(tier):
     # TSan runs are CPU heavy (8-16 threads each): a few at a time
     with ThreadPoolExecutor(3) as ex:
         results = list(ex.map(go, list(enumerate(plan))))
+    # first-use sweep: short COLD runs under TSan in which all threads make the same call first, once per distinct entry point
+    # (state that is initialised lazily on first use is raced on by the very first callers only)
+    fu = []
+    for cfg in (('shipped',) if tier == 'quick' else ('shipped', 'kissel')):
+        Q, S = queries[cfg]
+        okm = (refs[cfg].status & 1) == 0
+        firsts = {}
+        for k in range(len(Q)):
+            fn = int(Q[k]['fn'])
+            if fn not in firsts or (okm[k] and not okm[firsts[fn]]):
+                firsts[fn] = k               # prefer a request on the success path of that entry point
+        for j, (fn, k) in enumerate(sorted(firsts.items())):
+            fu.append((len(plan) + len(fu), (cfg, 'tsan', 8, 120, 0, j % 2), k))
+
+    def go_first(job):
+        i, (cfg, fl, th, calls, yld, loc), k = job
+        env = dict(LOCPATH=locdir, LC_ALL='xx_VERIF') if loc else dict(LC_ALL='C')
+        Q, S = queries[cfg]
+        return (i, (cfg, fl, th, calls, yld, loc)), run_one(mons[(cfg, fl)], Q, S, th, calls, yld, env, ck.seed * 1000 + i, ref=refs[cfg], first=k)
+    with ThreadPoolExecutor(6) as ex:
+        results += list(ex.map(go_first, fu))
+    tot['first_use_runs'] = len(fu)
     for (i, (cfg, fl, th, calls, yld, loc)), r in results:
         where = dict(config=cfg, flavour=fl, threads=th, calls_per_thread=calls, yield_permille=yld, locale='xx_VERIF' if loc else 'C', run=i, seed=ck.seed * 1000 + i)
         if r.get('watchdog'):
@@ -122,7 +151,7 @@ def main(tier):
             fns = sorted({fnname.get(b['fn'], str(b['fn'])) for b in rep['bad']})
             for fn in fns or ['?']:
                 ck.violation('c17:result-differs-from-serial:%s' % fn, '%d results in threads differ from the serial reference' % rep['mismatches'],
-                             dict(where, examples=rep['bad'][:3]))
+                             dict(where, examples=[_decode(b) for b in rep['bad'][:3]]))
         tot['runs'] += 1; tot['cold'] = tot.get('cold', 0) + rep.get('cold', 0); tot['calls'] += rep['calls']; tot['events'] += rep['hook_events']; tot['yields'] += rep['yields']
         tot['failing'] += rep['failing_calls']; tot['errapi'] += rep['error_api_uses']
         for k in range(5):
@@ -138,7 +167,7 @@ def main(tier):
                     'parser, catalogue lookups, crystal copies + structure factors, error copy/propagate on private slots), ThreadSanitizer build and plain build, '
                     'C and comma-decimal locale, seeded yields at the library hook points; every result compared bit for bit with a serial reference; '
                     'distinct = distinct overlap signatures (region entered x set of regions other threads were inside) observed through the hooks',
-               samples=samples, runs=tot['runs'], cold_start_runs=tot.get('cold', 0), hook_events=tot['events'], injected_yields=tot['yields'],
+               samples=samples, runs=tot['runs'], cold_start_runs=tot.get('cold', 0), first_use_runs_one_per_entry_point=tot.get('first_use_runs', 0), hook_events=tot['events'], injected_yields=tot['yields'],
                region_entries=dict(zip(REGION, tot['enter'])), entries_while_other_threads_inside=dict(zip(REGION, tot['overlap'])),
                overlap_signatures=tot['sigs'], failing_calls=tot['failing'], error_api_uses=tot['errapi'])
     return ck.finish(cov, ['TSan sees only instrumented code and intercepted libc calls', 'no thread mutates a shared crystal collection (documented exception)'])
